@@ -14,6 +14,7 @@ From ASV.C20 Require Model.
 From ASV.C09 Require Model.
 From ASV.C18 Require Model.
 From ASV.C19 Require Model.
+From ASV.C08 Require Model.
 
 Definition run (l : list Z) : list Z :=
   match l with
@@ -33,6 +34,7 @@ Definition run (l : list Z) : list Z :=
     | 9 => C09.Model.run_C09 fn payload
     | 18 => C18.Model.run_C18 fn payload
     | 19 => C19.Model.run_C19 fn payload
+    | 8 => C08.Model.run_C08 fn payload
     | _ => bad_input
     end
   | _ => bad_input
